@@ -170,6 +170,27 @@ def build_and_check(nb, seed, tier):
                         stats['samples'] += 600
                         if not np.all(u.contains(s)):
                             fails.append('%s: %d sampled points not contained' % (lab, int(np.sum(~u.contains(s)))))
+                        # history sample -> trim -> sample: points cached before a trim must not be handed out afterwards
+                        if name == 'two':
+                            with np.errstate(all='ignore'):
+                                pts2 = np.vstack([pts, np.clip(rng.normal(0.5, 0.25, (d + 6, d)), 1e-9, 1 - 1e-9)])
+                                u2 = B.Union.compute(pts2, unit=unit, bound_class=cls, n_points_min=d + 3, rng=np.random.default_rng(int(rng.integers(1 << 30))))
+                                _ = u2.log_v
+                                for _k in range(3):
+                                    u2.split()
+                                    _ = u2.log_v
+                                u2.sample(40)
+                                trimmed = 0
+                                for thr in (1e3, 30.0, 3.0, 1.2):
+                                    while u2.trim(threshold=thr):
+                                        trimmed += 1
+                                    if trimmed:
+                                        break
+                                s2 = u2.sample(500)
+                            stats['samples'] += 500
+                            stats['trims'] = stats.get('trims', 0) + trimmed
+                            if not np.all(u2.contains(s2)):
+                                fails.append('%s: after sample, %d trim(s), sample: %d of 500 points are not contained' % (lab, trimmed, int(np.sum(~u2.contains(s2)))))
                         if unit and not np.all((s >= 0) & (s < 1)):
                             fails.append('%s: sampled point outside the unit cube' % lab)
                         probes = np.vstack([s[:30], pts[:30], rng.random((60, d)) * 1.2 - 0.1])
